@@ -48,13 +48,14 @@ DAMAGE_EXC = {"EOFError", "UnpicklingError"}
 # TLC
 # ---------------------------------------------------------------------------
 
-def mc_module(d, names, cfgof, trunc, stages):
+def mc_module(d, names, cfgof, trunc, stages, clear_stages=()):
     (d / "MCBCCache.tla").write_text(f"""---- MODULE MCBCCache ----
 EXTENDS BCCache
 MCNames == {core.tla_str(set(names))}
 MCCfgOf == {core.tla_str(list(cfgof))}
 MCTrunc == {core.tla_str(set(trunc))}
 MCStages == {core.tla_str(set(stages))}
+MCClearStages == {core.tla_str(set(clear_stages))}
 ====
 """)
     return d / "MCBCCache.tla"
@@ -63,13 +64,14 @@ MCStages == {core.tla_str(set(stages))}
 ALL_INV = ["TypeOK", "C27_RendersCurrentSourceUnderOwnConfig", "C27_DamagedIsMiss", "C27_NeverStaleSource",
            "C27_FinalNeverPartial", "C27_EntryConsistent", "C27_KeyedEntriesOwnConfig"]
 ALL_STAGES = ["preTemp", "tempPartial", "tempFull", "replaced"]
+CLEAR_STAGES = ["preTemp", "tempPartial", "tempFull"]     # where another environment's clear() may fall
 
 
 def bcc_tlc(tag, *, names=("t",), nversions=2, cfgof=("c1", "c2"), store="fs", ignore=True, keycfg=False,
-            guarded=True, trunc=range(6), foreign=True, stages=ALL_STAGES, graph=False, invariants=ALL_INV,
-            workers=4, coverage=False):
+            guarded=True, trunc=range(6), foreign=True, stages=ALL_STAGES, clear_stages=CLEAR_STAGES, graph=False,
+            invariants=ALL_INV, workers=4, coverage=False):
     d = core.workdir(PID, f"mc_{tag}")
-    mod = mc_module(d, names, cfgof, trunc, stages)
+    mod = mc_module(d, names, cfgof, trunc, stages, clear_stages)
     B = lambda b: "TRUE" if b else "FALSE"  # noqa
     cfg = f"""CONSTANTS
   Names <- MCNames
@@ -82,6 +84,7 @@ def bcc_tlc(tag, *, names=("t",), nversions=2, cfgof=("c1", "c2"), store="fs", i
   TruncClasses <- MCTrunc
   AllowForeign = {B(foreign)}
   Stages <- MCStages
+  ClearStages <- MCClearStages
   None = None
   EmitGraph = {B(graph)}
 SPECIFICATION Spec
@@ -106,7 +109,9 @@ CONSTRAINT JunkBound
 INVARIANT TypeOK
 INVARIANT C27_FinalNeverPartial
 INVARIANT C27_ReaderSeesWholeEntries
+INVARIANT C27_ClosedTempIsWhole
 PROPERTY C27_FinalChangesAtomically
+PROPERTY C27_ClearLeavesWritersAlone
 """
     return core.run_tlc(PID, "BCCacheWrite", cfg, workers=workers, name=f"tlc_{tag}", coverage=coverage,
                         timeout=3000, heap="2g")
@@ -124,7 +129,8 @@ class _Killed(BaseException):
 
 
 class _Crash:
-    armed = None        # (stage, byte offset): where the running load dies
+    armed = None        # (stage, byte offset): where the running load dies ...
+    action = None       # ... or, when set, where this callable runs (once) and the load then continues
     fault = None        # (kind, byte offset): "write-oserror" | "replace-oserror" | "replace-interrupt"
     root = None         # cache directory being watched
     log = None          # list collecting the file operations of the write path (trace recording)
@@ -139,6 +145,16 @@ def _log(ev):
 
 
 def _die():
+    if _Crash.action is not None:
+        # another environment acts in the middle of the write; its file operations are not the writer's
+        act, _Crash.action, _Crash.armed = _Crash.action, None, None
+        log, _Crash.log = _Crash.log, None
+        try:
+            act()
+        finally:
+            _Crash.log = log
+        _log({"ev": "clear"})
+        return
     root = _Crash.root
     snap = {}
     for fn in os.listdir(root):
@@ -171,6 +187,7 @@ def _audit(event, args):
             f = _Crash.fault
             if f and f[0] in ("replace-oserror", "replace-interrupt"):
                 _Crash.fault = None
+                _log({"ev": "fault"})
                 _log({"ev": "rename-failed"})
                 raise OSError(13, "injected") if f[0] == "replace-oserror" else KeyboardInterrupt()
             _log({"ev": "rename"})
@@ -191,13 +208,17 @@ class _CutFile:
         a, ft = _Crash.armed, _Crash.fault
         limit = a[1] if a and a[0] == "tempPartial" else ft[1] if ft and ft[0] == "write-oserror" else None
         if limit is not None and self.pos + len(data) > limit:
-            self.f.write(data[: limit - self.pos])
+            head = data[: limit - self.pos]
+            self.f.write(head)
             self.f.flush()
             self.pos = limit
             _log({"ev": "write", "pos": self.pos})
             if a and a[0] == "tempPartial":
-                _die()
+                _die()                      # returns only when an action ran instead
+                rest = data[len(head):]
+                return self.write(rest) if rest else len(head)
             _Crash.fault = None
+            _log({"ev": "fault"})
             raise OSError(28, "injected: no space left on device")
         self.pos += len(data)
         r = self.f.write(data)
@@ -318,6 +339,7 @@ class Real:
         if store == "fs":
             self.dir = tempfile.mkdtemp(prefix="jv_c27_", dir=SCRATCH)
             self.bc = bccache.FileSystemBytecodeCache(self.dir)
+            self.bc_other = bccache.FileSystemBytecodeCache(self.dir)   # "another environment" on the same directory
         else:
             self.client = FakeClient(self)
             self.bc = bccache.MemcachedBytecodeCache(self.client, ignore_memcache_errors=ignore)
@@ -330,6 +352,7 @@ class Real:
         self.cause = {}
         self.last_full = 1200
         self.last_hint = None
+        self.point_reached = True
 
     def close(self):
         if self.dir:
@@ -434,6 +457,8 @@ class Real:
             return obs
         if k == "crash":
             return self.crash(op[1], op[2], op[3], hint)
+        if k == "loadclear":
+            return self.load_during_clear(op[1], op[2], op[3], hint)
         if k == "modify":
             self.mapping[op[1]] = source_text(op[1], op[2])
         elif k == "clear":
@@ -475,15 +500,37 @@ class Real:
             raise core.MachineryError(f"unknown op {op}")
         return None
 
+    def point_offset(self, stage, hint):
+        if stage != "tempPartial":
+            return 0
+        if hint is not None:
+            return hint
+        return self.rnd.choice(
+            [0, self.rnd.randint(1, self.magic_end - 1), self.magic_end,
+             self.rnd.randint(self.magic_end + 1, self.cks_end - 1), self.cks_end,
+             self.rnd.randint(self.cks_end + 1, self.cks_end + 400)])
+
+    def load_during_clear(self, e, n, stage, hint):
+        """the load runs to its end, but when its write reaches `stage` another environment sharing
+        the directory calls clear(); returns the load's observation"""
+        off = self.point_offset(stage, hint)
+        env = self.envs[e - 1]
+        _Crash.armed, _Crash.root, _Crash.dead = (stage, off), self.dir, False
+        _Crash.action = self.bc_other.clear
+        try:
+            obs = observe(lambda: env.get_template(n).render(**self.ctx()))
+        finally:
+            reached = _Crash.action is None
+            _Crash.armed = _Crash.action = None
+        self.last_hint = off
+        self.point_reached = reached
+        if reached:
+            self.cause.clear()
+        return obs
+
     def crash(self, e, n, stage, hint):
         """the load dies at `stage`: afterwards the directory is what it was at that moment"""
-        if stage == "tempPartial":
-            off = hint if hint is not None else self.rnd.choice(
-                [0, self.rnd.randint(1, self.magic_end - 1), self.magic_end,
-                 self.rnd.randint(self.magic_end + 1, self.cks_end - 1), self.cks_end,
-                 self.rnd.randint(self.cks_end + 1, self.cks_end + 400)])
-        else:
-            off = 0
+        off = self.point_offset(stage, hint)
         for attempt in range(1):
             _Crash.armed, _Crash.snapshot, _Crash.root, _Crash.dead = (stage, off), None, self.dir, False
             died = False
@@ -556,7 +603,11 @@ def apply_edge(real, e, rec, hint=None):
     m = rec.meta
     where = f"store={m['store']} configs={m['binding']} ignore_errors={m['ignore']} after {[t[0] for t in rec.trail[-6:]]}"
     verdict = True
-    if op[0] == "load":
+    if op[0] == "loadclear" and not real.point_reached:
+        rec.drift.append(f"{where}: the write never reached {op[3]}@{real.last_hint}")
+        del rec.trail[:]
+        return "resync"
+    if op[0] in ("load", "loadclear"):
         env, n = op[1], op[2]
         allowed = any(real.matches(obs, lab, env, n) for lab in e["allowed"])
         as_model = real.matches(obs, e["res"], env, n)
@@ -577,7 +628,9 @@ def apply_edge(real, e, rec, hint=None):
             else:
                 fp = {"kind": "bcc", "defect": "wrong-outcome", "op": op[0], "store": m["store"],
                       "same_config": real.cfgs[0] == real.cfgs[1]}
-                what = f"{where}: load by environment {env} ({own}) gave {obs}; the property allows only {want}"
+                during = f" (another environment called clear() at {op[3]}@{real.last_hint} of the write)" \
+                    if op[0] == "loadclear" else ""
+                what = f"{where}: load by environment {env} ({own}){during} gave {obs}; the property allows only {want}"
                 rec.unexpected += 1
             rec.violation(fp["defect"], what, fp, e)
         if not as_model:
@@ -688,8 +741,10 @@ def follow(G, node, op):
 
 
 def byte_sweeps(G, make, rec, sweep):
-    """every byte offset of a real entry as truncation point and as crash point, along the spec paths
-    clear; load(1); truncate(class of offset); load(e)   and   clear; crash(1, tempPartial@offset); load(e)"""
+    """every byte offset of a real entry as truncation point, as crash point and as the point where
+    another environment's clear() falls, along the spec paths
+    clear; load(1); truncate(class of offset); load(e),   clear; crash(1, tempPartial@offset); load(e)   and
+    clear; loadclear(e, tempPartial@offset); load(other)"""
     real = make()
     n = real.names[0]
     key = [n, "*"]
@@ -716,6 +771,8 @@ def byte_sweeps(G, make, rec, sweep):
                                   (["load", env, n], None)])
                 if off % cstep == 0 or off in boundary:
                     plans.append([(["clear"], None), (["crash", 1, n, "tempPartial"], off), (["load", env, n], None)])
+                    plans.append([(["clear"], None), (["loadclear", env, n, "tempPartial"], off),
+                                  (["load", 3 - env, n], None)])
                 for plan in plans:
                     cases += 1
                     del rec.trail[:]
@@ -765,15 +822,20 @@ def record_write_traces(args):
             try:
                 for st in steps:
                     if st[0] == "load":
-                        real.step(["load", 1, n])
+                        o = real.step(["load", 1, n])
+                        log.append({"ev": "loaded" if o[0] == "text" else "raised"})
+                    elif st[0] == "loadclear":
+                        o = real.load_during_clear(1, n, st[1], st[2])
+                        log.append({"ev": "loaded" if o[0] == "text" else "raised"})
                     elif st[0] == "kill":
                         real.crash(1, n, st[1], st[2])
                     elif st[0] == "fault":
                         _Crash.fault = (st[1], st[2])
                         try:
                             real.envs[0].get_template(n)
+                            log.append({"ev": "loaded"})
                         except BaseException:  # noqa  (the injected error propagates, as documented)
-                            pass
+                            log.append({"ev": "raised"})
                         _Crash.fault = None
                     elif st[0] == "clear":
                         _Crash.log = None
@@ -798,11 +860,16 @@ def record_write_traces(args):
         scenario("clear and write again", [("load",), ("clear",), ("load",)])
         scenario("replace fails with OSError", [("fault", "replace-oserror", 0), ("load",)])
         scenario("replace interrupted", [("load",), ("modify", 2), ("fault", "replace-interrupt", 0), ("load",)])
+        for stage in ("preTemp", "tempFull"):
+            scenario(f"another environment clears at {stage}", [("loadclear", stage, 0), ("load",)])
+            scenario(f"another environment clears at {stage}, over an old entry",
+                     [("load",), ("modify", 2), ("loadclear", stage, 0), ("load",)])
         for stage in ("preTemp", "tempFull", "replaced"):
             scenario(f"killed at {stage}", [("kill", stage, 0), ("load",)])
             scenario(f"killed at {stage} over an old entry", [("load",), ("modify", 2), ("kill", stage, 0), ("load",)])
         for off in offsets:
             scenario(f"killed after {off} bytes", [("kill", "tempPartial", off), ("load",)])
+            scenario(f"another environment clears after {off} bytes", [("loadclear", "tempPartial", off), ("load",)])
             if off % (step * 3) == 0 or off in boundary:
                 scenario(f"write fails after {off} bytes", [("fault", "write-oserror", off), ("load",)])
                 scenario(f"killed after {off} bytes over an old entry, twice",
@@ -842,12 +909,21 @@ POSTCONDITION Post
     for idx in rejected:
         name, tr = traces[idx - 1]
         partial = [e for e in tr if e["ev"] == "final" and 0 <= e["c"] < 6]
+        raised = [j for j, e in enumerate(tr) if e["ev"] == "raised"
+                  and not any(x["ev"] == "fault" for x in tr[max(0, j - 6):j])]
         if partial:
             bad += 1
             ck.violation({"kind": "write-trace", "scenario": name, "trace": tr},
                          f"write path, scenario '{name}': the file operations {[e['ev'] for e in tr]} are not a "
                          f"behaviour of the temp-file + replace protocol and left a partial final entry {partial[0]}",
                          {"kind": "bcc", "defect": "final-entry-partial-after-interrupted-write", "stage": "trace"})
+        elif raised:
+            bad += 1
+            ck.violation({"kind": "write-trace", "scenario": name, "trace": tr},
+                         f"write path, scenario '{name}': the load raised although nothing was made to fail; its file "
+                         f"operations {[e['ev'] for e in tr]} are not a behaviour of the temp-file + replace protocol "
+                         f"(a concurrent clear() may only cause a miss)",
+                         {"kind": "bcc", "defect": "load-raised-in-write-path", "stage": "trace"})
         else:
             ck.extra.setdefault("drift", []).append(
                 f"write-path trace '{name}' is not a behaviour of BCCacheWrite.tla: {[e['ev'] for e in tr]}"[:300])
